@@ -3,13 +3,18 @@
 import json, os, sys
 sys.path.insert(0, os.path.dirname(os.path.abspath(__file__)))
 from harness.manifest_entries import NOT_APPLICABLE, HOOK_COMMITS
-import importlib, glob
+import ast, glob
 ENTRIES = {}
 for f in sorted(glob.glob(os.path.join(os.path.dirname(os.path.abspath(__file__)), "harness", "c[0-9][0-9].py"))):
     pid = os.path.basename(f)[:-3].upper()
-    mod = importlib.import_module("harness." + pid.lower())
-    if getattr(mod, "MANIFEST", None):
-        ENTRIES[pid] = mod.MANIFEST
+    # evaluate only the `MANIFEST = {...}` assignment (no import of the harness module needed)
+    tree = ast.parse(open(f).read())
+    for node in tree.body:
+        if isinstance(node, ast.Assign) and any(isinstance(t, ast.Name) and t.id == "MANIFEST" for t in node.targets):
+            ns = {}
+            exec(compile(ast.Module(body=[node], type_ignores=[]), f, "exec"), ns)
+            if ns.get("MANIFEST"):
+                ENTRIES[pid] = ns["MANIFEST"]
 
 ALL = ["C%02d" % i for i in range(1, 21)]
 checks = []
